@@ -22,9 +22,27 @@ BUILTIN = {"GE", "GT", "GT2", "LE", "LT", "EQ", "EQ2", "NE", "IN", "HAS", "START
            "if", "abs", "Some", "Ok", "Err", "None", "IF", "FOR", "ELSE", "not", "and", "or"}
 
 
+# deterministic std methods: `f(x)` with such an f is a definite function of x, not a possible re-spelling of an
+# unrelated condition (a crate-local helper that the reference never saw is)
+STD = set("""len is_empty chars bytes lines split splitn rsplit split_once rsplit_once split_at split_whitespace find
+rfind contains starts_with ends_with strip_prefix strip_suffix trim trim_start trim_end trim_matches
+trim_start_matches trim_end_matches to_uppercase to_lowercase to_ascii_uppercase to_ascii_lowercase to_string
+to_owned as_str as_ref as_deref clone cloned copied parse get first last nth next peek iter into_iter enumerate skip
+take rev zip chain map filter filter_map flat_map flatten any all count sum min max position rposition find_map fold
+collect unwrap unwrap_or unwrap_or_default unwrap_or_else expect ok err ok_or ok_or_else and_then or_else is_some
+is_none is_ok is_err is_some_and is_none_or map_or map_or_else abs round floor ceil trunc fract powi powf sqrt
+is_nan is_finite is_infinite to_digit is_ascii_digit is_ascii_alphabetic is_ascii_alphanumeric is_ascii_uppercase
+is_ascii_lowercase is_alphabetic is_numeric is_alphanumeric is_uppercase is_lowercase is_whitespace is_ascii
+is_char_boundary char_indices join concat repeat replace replacen format push push_str insert extend retain sort
+sort_by sort_by_key dedup truncate clear remove pop contains_key keys values entry or_default or_insert
+or_insert_with from into try_from try_into year month day hour minute second format_with_items naive_local date
+and_hms_opt from_ymd_opt from_hms_opt parse_from_str with_year eq ne lt le gt ge cmp partial_cmp not default new
+with_capacity capacity downcast_ref type_id""".split())
+
+
 def vocabulary(reference_texts):
     """identifiers used as function / method names anywhere in the reviewed reference"""
-    v = set(BUILTIN)
+    v = set(BUILTIN) | STD
     for t in reference_texts:
         for m in IDENT_CALL.finditer(t):
             name = m.group(1)
